@@ -109,6 +109,10 @@ def gen_case(rng):
             s = s + rng.choice(["g0", "  ", "0 ", "\n0", "-1", "0x"])
         elif m < .35:
             s = " " + s
+        elif m < .45:
+            # prefix spellings other than the one accepted form '0x'
+            core = s[2:] if s.startswith("0x") else s
+            s = rng.choice(["0X", "0x0x", "0x0X", "x", "X", "0 x", "\\x", "0x "]) + core
         return {"cls": "base16", "lit": s}
     if k < .76:
         b = bytes(rng.randrange(256) for _ in range(rng.randrange(0, 12)))
@@ -335,6 +339,25 @@ def check_case(pt, acc, c):
         return
     # ---- the same literal through assembleConstants (once -> pushbytes/pushint, twice -> constant block): the compiler re-reads
     # its own escaped text there (unescapeStr / decoders), so the value pushed must still be the user's bytes
+    if cls == "method":
+        # the same text as a Bytes literal in the same program, in both orders: constants are keyed by value and kind, not by text
+        for order in (0, 1):
+            try:
+                pair = [pt.Log(pt.MethodSignature(lit)), pt.Log(pt.Bytes(lit))]
+                want2 = [expected, lit.encode()]
+                if order:
+                    pair.reverse()
+                    want2.reverse()
+                teal3 = pt.compileTeal(pt.Seq(*pair, *pair, pt.Int(1)), pt.Mode.Application, version=version, assembleConstants=True)
+                r3 = avm.run(avm.parse_any(teal3), avm.Ctx())
+            except Exception as e:
+                acc.violation("assembled_literal_mismatch", c, "method + bytes of the same text under assembleConstants raised %s: %s" % (type(e).__name__, str(e)[:200]))
+                return
+            acc.counters["assembled_same_text_pairs"] += 1
+            if r3.status != "approve" or r3.logs != want2 * 2:
+                acc.violation("assembled_literal_mismatch", c, "MethodSignature(%r) and Bytes(%r) in one program under assembleConstants logged %r, expected %r"
+                              % (lit, lit, r3.logs[:2], want2))
+                return
     if cls == "int" or len(expected) <= 1024:
         for times in (1, 2):
             try:
